@@ -197,7 +197,7 @@ func builderMain(args []string) int {
 			if err := json.Unmarshal(rd.Bytes(), &sc); err != nil {
 				die("script: %v", err)
 			}
-			builderRun(t, &sc)
+			guarded(t, func() { builderRun(t, &sc) })
 			nsc++
 		}
 	} else {
@@ -221,7 +221,7 @@ func builderMain(args []string) int {
 				x := rnd.Intn(total + 3)
 				sc.Ops = append(sc.Ops, []interface{}{[]string{"Insert", "Delete", "Lookup"}[rnd.Intn(3)], x})
 			}
-			builderRun(t, sc)
+			guarded(t, func() { builderRun(t, sc) })
 			nsc++
 		}
 	}
@@ -324,7 +324,7 @@ func mergeMain(args []string) int {
 			if err := json.Unmarshal(rd.Bytes(), &sc); err != nil {
 				die("script: %v", err)
 			}
-			mergeRun(t, &sc)
+			guarded(t, func() { mergeRun(t, &sc) })
 			nsc++
 		}
 	} else {
@@ -354,7 +354,7 @@ func mergeMain(args []string) int {
 					sc.Ops = append(sc.Ops, []interface{}{"Next"})
 				}
 			}
-			mergeRun(t, sc)
+			guarded(t, func() { mergeRun(t, sc) })
 			nsc++
 		}
 	}
